@@ -276,6 +276,39 @@ def run_config(cfg, res):
                  '%s, line of %d bytes' % (desc, L + 5), o['got'])
           break
       res.case(('overlong', L), True)
+  # datagrams of exactly the sizes at which buffers end (the read buffer of twisted's UDP port is 8192 bytes, a datagram of
+  # that size arrives whole), with and without a line terminator after the last line, and the same datapoints batched otherwise
+  if cfg['proto'] == 'udp' and cfg['shard'] in (0, 1):
+    for L in (512, 1024, 1472, 2048, 4095, 4096, 4097, 8191, 8192, 8193, 16384, 32768, 65507):
+      for final in (b'', b'\n', b'\r\n'):
+        pts, d = [], b''
+        k = 0
+        while True:
+          n, t, v = 'dg%d.m%d' % (L, k), str(1700000000 + k), r.choice(['12', '0.5', '-3', '1e3'])
+          ln = codec.encode_line(n, v, t, None, b'\n')
+          if len(d) + len(ln) + 40 > L - len(final):
+            break
+          d += ln
+          pts.append((n, t, v))
+          k += 1
+        # the last line fills the datagram exactly (a long but ordinary name)
+        room = L - len(final) - len(d)
+        t, v = '1700009999', '7'
+        n = 'dg%d.' % L + 'z' * (room - len('dg%d.' % L) - len(' %s %s' % (v, t)))
+        d += ('%s %s %s' % (n, v, t)).encode() + final
+        pts.append((n, t, v))
+        assert len(d) == L, (len(d), L)
+        want = [(n_, (float(t_), float(v_))) for n_, t_, v_ in pts]
+        half = d.rfind(b'\n', 0, L // 2) + 1
+        for dgrams, desc in (([d], 'one datagram of %d bytes' % L), ([d[:half], d[half:]], 'the same lines in two datagrams')):
+          o = proto.udp_session(dgrams, rec)
+          res.count('datagrams_executed', len(dgrams))
+          res.count('boundary_size_datagrams')
+          why = ('exception %r' % o['exc']) if o['exc'] is not None else proto.same_points(o['got'], want)
+          if why:
+            report('mismatch/boundary-size-datagram', why, d[-80:], want[-2:], '%s, %r after the last line' % (desc, final), o['got'][-2:])
+            break
+        res.case(('dgram', L, final), True)
   # big frames: thousands of datapoints in one pickle frame (a relay with a large MAX_DATAPOINTS_PER_MESSAGE), more
   # frames right behind it in the same read; anything carbon defers with reactor.callLater(0) is run between reads
   if cfg['proto'] == 'pickle' and cfg['shard'] in (0, 1):
